@@ -738,7 +738,7 @@ func oneTable(seed int64) tableResult {
 }
 
 func Run(args []string) {
-	rep := vh.NewReport(command, "random type tables as in sem-addprops (4 named types, root of depth<=3, recursive references, nullable, additionalProperties) where every second object gets 0-2 key shortcuts @k0..@k3 (required or optional, inserted at random positions among the named properties) over four fixed key types (minLength 2, maxLength 1, no rules = equality with the example, minLength 3: overlapping key sets); document keys from a pool of 11 keys of length 1-4; JSight text -> real AddType/Check/Validate, same IR with shortcuts tagged K in declaration order -> Lean VK.validateT; 12 documents per table: 5 sampled from the schema (a shortcut gets a key its key type accepts), 5 sampled then mutated, 2 random; tables refused by Check are skipped and counted by error code; nontrivial = an object with a key shortcut is reachable from the root; a difference on a table where a non-nullable reference position whose names all end in a cycle of pure references (@a = @a: no alternative at all) is reachable from the root carries the class K-C09-cycle")
+	rep := vh.NewReport(command, "random type tables as in sem-addprops (4 named types, root of depth<=3, recursive references, nullable, additionalProperties) where every second object gets 0-2 key shortcuts @k0..@k3 (required or optional, inserted at random positions among the named properties) over four fixed key types (minLength 2, maxLength 1, no rules = equality with the example, minLength 3: overlapping key sets); document keys from a pool of 11 keys of length 1-4; JSight text -> real AddType/Check/Validate, same IR with shortcuts tagged K in declaration order -> Lean VK.validateT; 12 documents per table: 5 sampled from the schema (a shortcut gets a key its key type accepts), 5 sampled then mutated, 2 random; tables refused by Check are skipped and counted by error code; nontrivial = an object with a key shortcut is reachable from the root; document string scalars are drawn every second time from a pool of 32 strings whose content looks like another JSON kind (\"1.5\", \"a.b\", \"true\", \"null\", \"{}\", \"1e5\", \"\", \" \", the same with \\u escapes), also as the value of the extra member under every additionalProperties mode one time in four; a case whose document holds such a string is validated 8 times and every repeat must give the model verdict (UNSTABLE otherwise); a difference on a table where a non-nullable reference position whose names all end in a cycle of pure references (@a = @a: no alternative at all) is reachable from the root carries the class K-C09-cycle")
 	r := vh.NewRand(salt)
 	nTables := vh.Pick(3000, 100000)
 	const batch = 4000
